@@ -260,7 +260,7 @@ class _ActionPrintConfig(Action):
     def __call__(self, parser, namespace, value, option_string=None):
         kwargs = {"subparser": parser, "key": None, "skip_none": False, "skip_validation": False}
         valid_flags = {"": None, "comments": "yaml_comments", "skip_default": "skip_default", "skip_null": "skip_none"}
-        if value is not None:
+        if value:
             flags = value[0].split(",")
             invalid_flags = [f for f in flags if f not in valid_flags]
             if len(invalid_flags) > 0:
